@@ -10,14 +10,14 @@ namespace Rawr
 open Position
 
 /-! ## chess/perft.rs -/
-theorem agree_perft (ar : Arith) : ∀ (fuel depth : Nat) (p : Position), depth < fuel →
-    R.perft fuel ar p depth = perft depth p := by
+theorem agree_pos_perft (ar : Arith) : ∀ (fuel depth : Nat) (p : Position), depth < fuel →
+    R.pos_perft fuel ar p depth = perft depth p := by
   intro fuel
   induction fuel with
   | zero => intro depth p h; omega
   | succ fuel ih =>
     intro depth p h
-    unfold R.perft
+    unfold R.pos_perft
     match depth, h with
     | 0, _ => simp [perft]
     | 1, _ => simp [perft, agree_count_moves]
@@ -31,7 +31,7 @@ theorem agree_perft (ar : Arith) : ∀ (fuel depth : Nat) (p : Position), depth 
       -- the loop over the generated moves against the model's fold
       have key : ∀ (l : List GMv) (acc : Nat),
           (forIn l acc (fun g r => (p.makemove g.mv false).bind fun np =>
-              (R.perft fuel ar np (d + 1)).bind fun x => some (ForInStep.yield (r + x)))) =
+              (R.pos_perft fuel ar np (d + 1)).bind fun x => some (ForInStep.yield (r + x)))) =
             (l.map (·.mv)).foldl (fun acc m =>
               match acc, p.makemove m false with
               | some a, some np => (perft (d + 1) np).map (a + ·)
@@ -60,7 +60,7 @@ theorem agree_perft (ar : Arith) : ∀ (fuel depth : Nat) (p : Position), depth 
       rw [key]
       exact Option.bind_fun_some _
 
-example : R.perft 3 .trap Gen.startpos 2 = some 400 := by decide +kernel
+example : R.pos_perft 3 .trap Gen.startpos 2 = some 400 := by decide +kernel
 
 
 /-! ## uci/setoption.rs
@@ -307,7 +307,7 @@ example : (R.parse_go 9 ["depth".toList, "x".toList]).map (·.1) = some none := 
 example : (R.parse_go 9 ["bogus".toList]).map (·.1) = some none := by decide +kernel
 end Rawr
 
-#print axioms Rawr.agree_perft
+#print axioms Rawr.agree_pos_perft
 #print axioms Rawr.agree_setoption
 #print axioms Rawr.doSetoption_eq
 #print axioms Rawr.agree_parse_go
